@@ -58,6 +58,19 @@ chk("C19", "exploration",
     "trusts refcar and the harness's own CID text codecs; commands that legitimately refuse a combination are not judged (listed in DESIGN.md); `car verify` on zero-root outputs is not judged (precondition vacuous)",
     "runtime monitoring: black-box child-process executions judged by acceptance oracles (the tool's own verifiers) and a reference-decoder content oracle", "DESIGN.md §6 C19")
 
+chk("C05", "exploration",
+    "Runtime monitor: seeded writing sessions (incl. none and no-stored-block sessions) x option matrix x {blockstore Put/PutMany, storage.NewWritable, storage.NewReadableWritable, deferred writer} plus archives produced by the built car binary (create, get-dag, filter); each finalized file is parsed by the reference decoder: pragma, DataOffset = 51 + padding, DataSize = exact payload length, IndexOffset = payload end + padding, zero padding bytes, payload = header(roots) ‖ stored sections in put order, index = exactly those sections in canonical order, fully-indexed bit ⇔ StoreIdentityCIDs and no other characteristics bits, nothing after the index; CARv1 mode file = payload; then Reader.Inspect(true) and lib.VerifyCar (when all roots are stored) must accept.",
+    "trusts refcar and lab.Model (which puts are stored); CLI outputs are judged for container self-consistency and verifier acceptance only (their content is C19)",
+    "runtime monitoring: reference-decoder oracle on finalized bytes plus the library's own verifier verdicts", "DESIGN.md §6 C05")
+chk("C12", "exploration",
+    "Runtime monitor with byte-equality oracles: for put lists of n blocks ALL 3^(n+1) interruption strings over {continue, Discard+reopen, Finalize+reopen} (n ≤ 3 quick / ≤ 5 thorough; random strings for n = 6..15) x 6/10 option configurations x {blockstore.OpenReadWrite, storage.OpenReadableWritable}: final file must equal the uninterrupted session's; every single-field mismatch on reopen (root replaced/removed/added, data padding ±, wrong version) on finalized and unfinalized files must be rejected leaving the file byte-identical.",
+    "byte equality only; permuted roots and changed multiplicity of duplicated roots are not counted as mismatches",
+    "runtime monitoring: exhaustive interruption-string enumeration with byte-equality oracle", "DESIGN.md §6 C12")
+chk("C20", "exploration",
+    "Runtime monitor against an executable model: ALL op strings of length ≤ 4 (quick) / ≤ 6 (thorough) over {OnPut(once), OnPut(always), Has x2, Put x3, Close} x 5 targets (path v1/v2/v2+options, stream, stream+options) plus random longer strings; after every step: nothing written / no file before the first Put, output bytes equal to a directly constructed writer fed the same puts, callback log equal to the model's, closed-error after Close.",
+    "the direct writer is the oracle for bytes (itself judged by C01/C05)",
+    "runtime monitoring: step-by-step comparison with an executable model and a twin direct writer over exhaustively enumerated op strings", "DESIGN.md §6 C20")
+
 NOT_YET = {}
 
 def main():
